@@ -227,6 +227,7 @@ Definition validate (c : claims) : res unit := walk (fun id => status id c) (vor
 
 (** * Setters: new claims-set and the returned error *)
 
+Definition upd_profile c v := {| c_kind := c_kind c; c_profile := v; c_client := c_client c; c_lc := c_lc c; c_impl := c_impl c; c_boot := c_boot c; c_cert := c_cert c; c_swc := c_swc c; c_nosw := c_nosw c; c_nonce := c_nonce c; c_inst := c_inst c; c_vsi := c_vsi c; c_canon := c_canon c |}.
 Definition upd_client c v := {| c_kind := c_kind c; c_profile := c_profile c; c_client := v; c_lc := c_lc c; c_impl := c_impl c; c_boot := c_boot c; c_cert := c_cert c; c_swc := c_swc c; c_nosw := c_nosw c; c_nonce := c_nonce c; c_inst := c_inst c; c_vsi := c_vsi c; c_canon := c_canon c |}.
 Definition upd_lc c v := {| c_kind := c_kind c; c_profile := c_profile c; c_client := c_client c; c_lc := v; c_impl := c_impl c; c_boot := c_boot c; c_cert := c_cert c; c_swc := c_swc c; c_nosw := c_nosw c; c_nonce := c_nonce c; c_inst := c_inst c; c_vsi := c_vsi c; c_canon := c_canon c |}.
 Definition upd_impl c v := {| c_kind := c_kind c; c_profile := c_profile c; c_client := c_client c; c_lc := c_lc c; c_impl := v; c_boot := c_boot c; c_cert := c_cert c; c_swc := c_swc c; c_nosw := c_nosw c; c_nonce := c_nonce c; c_inst := c_inst c; c_vsi := c_vsi c; c_canon := c_canon c |}.
